@@ -107,6 +107,16 @@ fn has_hint(case: &ServeCase, key: u64) -> bool {
     }
 }
 
+fn hint_n(case: &ServeCase, key: u64) -> Option<u64> {
+    match &case.hints {
+        Val::L(l) => l.iter().find_map(|h| match h {
+            Val::L(kv) if kv.len() == 2 && kv[0].as_n() == Some(key) => kv[1].as_n(),
+            _ => None,
+        }),
+        _ => None,
+    }
+}
+
 fn subsec_ms() -> u32 {
     SystemTime::now().duration_since(SystemTime::UNIX_EPOCH).map(|d| d.subsec_millis()).unwrap_or(0)
 }
@@ -119,7 +129,7 @@ fn second_boundary_warm_up() {
     while subsec_ms() < 850 {
         std::thread::sleep(std::time::Duration::from_millis(5));
     }
-    let cfg = EntityCfg { len: 10, etag: None, mtime_ns: Some(784111777u64 * 1_000_000_000), hdrs: vec![], recipes: vec![], default_recipe: vec![Op::Rest], split: false };
+    let cfg = EntityCfg { len: 10, etag: None, mtime_ns: Some(784111777u128 * 1_000_000_000), hdrs: vec![], recipes: vec![], default_recipe: vec![Op::Rest], split: false };
     let ent = ScriptedEntity { cfg, log: Arc::new(Mutex::new(Log::default())) };
     let req = http::Request::builder().method("GET").body(()).unwrap();
     let _ = catch_unwind(AssertUnwindSafe(|| http_serve::serve(ent, &req)));
@@ -142,6 +152,15 @@ pub fn run(case: &ServeCase) -> Outcome {
     let mut rb = http::Request::builder().method(http::Method::from_bytes(&case.method).expect("valid method token"));
     for (k, v) in &case.headers {
         rb = rb.header(k.as_str(), http::HeaderValue::from_bytes(v).expect("valid header value"));
+    }
+    // hint 10: the request's HTTP version
+    if let Some(v) = hint_n(case, 10) {
+        rb = rb.version(match v {
+            0 => http::Version::HTTP_09,
+            1 => http::Version::HTTP_10,
+            2 => http::Version::HTTP_2,
+            _ => http::Version::HTTP_3,
+        });
     }
     let req = rb.body(()).unwrap();
 
@@ -256,7 +275,8 @@ pub fn run(case: &ServeCase) -> Outcome {
         }
     }
     // oracle hypothesis: parse (fmt t) = t on the timestamps this case uses
-    for t in [Some(now_s), case.ent.mtime_ns.map(|n| n / 1_000_000_000)].into_iter().flatten() {
+    // (stated for 0 <= t < year 9999 only: later times have no HTTP-date and httpdate refuses to format them)
+    for t in [Some(now_s), case.ent.mtime_ns.map(|n| (n / 1_000_000_000) as u64).filter(|s| *s < 253_402_300_800)].into_iter().flatten() {
         let st = SystemTime::UNIX_EPOCH + std::time::Duration::from_secs(t);
         match httpdate::parse_http_date(&httpdate::fmt_http_date(st)) {
             Ok(p) if p == st => {}
@@ -272,7 +292,7 @@ pub fn run(case: &ServeCase) -> Outcome {
         Val::L(vec![
             Val::N(case.ent.len),
             Val::opt(case.ent.etag.as_ref().map(|e| Val::bytes(e))),
-            Val::opt(case.ent.mtime_ns.map(Val::N)),
+            Val::opt(case.ent.mtime_ns.map(Val::n128)),
             Val::L(ehdrs),
         ]),
         Val::L(vec![
@@ -332,7 +352,7 @@ pub fn case_of_input(v: &Val) -> Option<ServeCase> {
         ent: EntityCfg {
             len: e[0].as_n()?,
             etag: e[1].as_opt()?.map(|v| v.as_b().cloned()).flatten(),
-            mtime_ns: e[2].as_opt()?.map(|v| v.as_n()).flatten(),
+            mtime_ns: e[2].as_opt()?.map(|v| v.as_n128()).flatten(),
             hdrs,
             recipes,
             default_recipe: vec![],
